@@ -115,6 +115,19 @@ def programs(tier: str):
                 continue
             yield {"block": dict(h, child=dict(i, prepared="outer")), "outer": True, "cancels": 0}
             yield {"block": dict(h, child=dict(i, prepared="start")), "outer": False, "cancels": 0}
+    # nested blocks that both supply a state holding a value without a yes/no equality (array-like):
+    # the context restores by identity, it never needs to compare states
+    for hk in ("ascope", "sscope", "updated"):
+        for ik in ("ascope", "sscope", "updated"):
+            for ending in ("return", "raise"):
+                for with_disp in (False, True):
+                    if with_disp and ik != "ascope":
+                        continue
+                    inner_b = {"kind": ik, "supply": ["N"], "pause": True, "ending": ending}
+                    if with_disp:
+                        inner_b["disp"] = [{"enter": "ok", "exit": "ok", "yields": "none"}]
+                        inner_b["spawns"] = []
+                    yield {"block": {"kind": hk, "supply": ["N"], "pause": True, "ending": "return", "child": inner_b}, "outer": True, "cancels": 0}
     # the cancellation injected between two loop iterations
     for b in singles:
         if b["kind"] == "ascope" and len(b.get("disp", [])) <= 1:
